@@ -63,6 +63,9 @@ func parseAndValidateUserID(id string, allowHistoricalIDs bool) (*UserID, error)
 	if _, _, ok := ParseAndValidateServerName(ServerName(domain)); !ok {
 		return nil, fmt.Errorf("domain is invalid")
 	}
+	if len(localpart) < 1 {
+		return nil, fmt.Errorf("local part is empty")
+	}
 
 	if allowHistoricalIDs {
 		// NOTE: Allowed historical userIDs:
